@@ -72,6 +72,10 @@ def seeded(uni: qgen.Universe) -> List[Tuple[str, set]]:
         (f'ds.Select(lambda e: e.{a}("b1").Select(lambda j: j.color()))', {"tree_type"}),
         (f'ds.Select(lambda e: e.{a}("b1").Select(lambda j: j.hits().Select(lambda h: j.color())))', {"tree_type"}),
         (f'ds.Select(lambda e: e.{a}("b1").Select(lambda j: e.{b}("b1").Select(lambda t: t.color())))', {"tree_type"}),
+        # one collection call whose code is generated twice: first inside a loop (Range) and again at event level (the cached
+        # value is not visible there); what it declares at class level (miniAOD: the token) is still declared once
+        (f'ds.Select(lambda e: e.{a}("b1")).Select(lambda ms: (Range(0, 2).Select(lambda i: ms.Count()), ms.Count()))', {"range", "revisit"}),
+        (f'ds.Select(lambda e: e.{a}("b1")).Select(lambda ms: (Range(0, 2).Select(lambda i: ms.Select(lambda m: m.pt()).Sum()), ms.Select(lambda m: m.eta())))', {"range", "revisit"}),
         ((f'ds.Select(lambda e: e.{a}("b1").First().getAttributeFloat("emf"))' if uni.backend == "atlas"
           else f'ds.Select(lambda e: isNonnull(e.{a}("b1").First()))'), {"inject"}),
     ]
